@@ -75,7 +75,7 @@ def run_one(scene, run):
     L.TAB = run["tab"]
     out = dict()
     signal.signal(signal.SIGALRM, on_alarm)
-    signal.alarm(20)
+    signal.alarm(6)
     try:
         sim = LogSimulator(run["perms"]).simulate(
             scene, maxSteps=run["max_steps"], timestep=run["timestep"], maxIterations=1,
